@@ -115,6 +115,42 @@ CLAIMS = {
         note=BASE_NOTE + "Distinctness of ids of different kinds reduces to hash collision resistance (stated, not claimed).",
         technique="Lean 4 proof + differential correspondence on real hashes",
         design="§6 C13"),
+    "C04": dict(
+        text=("Panic sites are explicit Res.panic branches of the model. Theorems: a literal transcription of base64 decode_inner with every slice index / copy_from_slice as a potential panic equals the total mirror (decodeVecLit_eq) and never panics; "
+              "no-panic theorems for every FromStr, unseal (local/public), PIE/PBKW unwrap, PKE unseal and key decoder of every back end; accepted_key_usable (the assert in compressed_pub_key is unreachable after the infinity fix); "
+              "seal_no_panic_from_nonce; the aws-lc wrapper functions transcribed as action lists with an exhaustive check over every failure point (no double free / use after free / leak / dangling ownership) and the set_len contract of append_to_vec. "
+              "Tie: ~100k malformed inputs per run under catch_unwind (all FromStr, every payload length 0..700, every blob length 0..300, all key strings, accepted keys re-used), process death bisected."),
+        note=BASE_NOTE + "PARTIAL: aborts inside aws-lc/libsodium, allocator failure, stack overflow in dependencies and memory safety of the C libraries cannot be exhibited; the FFI model is a hand transcription of lc/mod.rs tied only by crash observation.",
+        technique="Lean 4 proof (explicit panic branches shown unreachable; exhaustive path check of the FFI ownership model by decide) + malformed-input correspondence under catch_unwind",
+        design="§6 C04"),
+    "C16": dict(
+        text=("Randomised operations of the getrandom-based back ends written against an explicit random source (list of answers, each bytes or failure). Theorems: fail-closed for encrypt, PIE, PBKW (both draw indices), key sealing, key generation and "
+              "rejection sampling after any number of rejected candidates; the drawn bytes ARE the embedded nonce/salt/seed (token_nonce_is_draw, pie_nonce_is_draw, pie_draws_distinct, pbkw_salt_nonce_are_draws, *_is_draw). "
+              "Tie: harness rebuilt with the getrandom custom backend; outputs for scripted answers compared bit-for-bit with the model for v1-v4, failure injected at every draw index; 10^4..10^5 consecutive operations per kind on all six back ends checked for distinct nonces."),
+        note=BASE_NOTE + "PARTIAL: aws-lc, libsodium and rsa's OsRng cannot be failed from outside (success path and freshness only); distinctness of OS randomness is statistical; v1/v2 synthetic nonces reduce to a MAC collision (stated).",
+        technique="Lean 4 proof over an explicit random-source oracle + scripted-RNG correspondence with failure injection at every draw",
+        design="§6 C16"),
+    "C17": dict(
+        text=("System model: one shared immutable key, threads running operations atomically on it. Invariant by induction over schedules (inv_run): key_never_modified, interleaving_independent (every complete schedule gives each thread its sequential results), "
+              "partial_results_are_sequential_prefix, schedules_agree, after_failures_same; clone paths of the aws-lc wrappers balanced (from the FFI model). "
+              "Tie: 2/4/8/16 threads sharing Arc'd keys on every back end running mixed succeeding and failing operations, each result checked against the sequential oracle, key fingerprints compared before/after and against a fresh copy."),
+        note=BASE_NOTE + "PARTIAL: data races inside aws-lc/libsodium and the soundness of `unsafe impl Send/Sync` cannot be exhibited by the model; it shows the Rust side keeps no shared mutable state and ownership is unique.",
+        technique="Lean 4 proof (invariant over all schedules by induction) + threaded oracle runs",
+        design="§6 C17"),
+    "C18": dict(
+        text=("The trait-implementation table is re-read from rustc on every run (inherent-const-shadows-trait-const probes) into Extracted/Impls.lean; Types.lean transcribes the bounds of every catalogued operation; types_match_policy: for EVERY operation at EVERY "
+              "type-argument combination typechecks = allowed (kernel-checked case analysis), with corollaries (cross-version, wrong purpose, PKE key as signing key, public key not wrappable, secrets not printable, unsealed tokens not serialisable, private fields). "
+              "Tie: 456 programs (each forbidden combination and its well-typed counterpart, per back end) compiled by rustc; verdict equals the model's and the independently computed policy; error code families recorded."),
+        note=BASE_NOTE + "PARTIAL: rustc is the implementation of the type system; only the catalogued operations are modelled.",
+        technique="Lean 4 proof (decision table over the extracted impl table = policy) + compile-probe correspondence",
+        design="§6 C18"),
+    "C19": dict(
+        text=("Feature tables (Cargo.toml, cross-checked with cargo metadata) and an item-level scan of #[cfg(feature)] gates with the optional crates / gated items each gated context references are regenerated each run; closure / evalCfg / consistent in Lean; "
+              "all_subsets_consistent for all 2^9 subsets of each of paseto-v1..v4; gates_item_level (no cfg! / statement-level gates, so an included item's source is feature-independent). "
+              "Tie: cargo check --no-default-features --features S for feature closures (quick: covering set; thorough: all distinct closures) plus paseto-core +-serde and paseto-json +-claims; the model's verdict must equal cargo's."),
+        note=BASE_NOTE + "PARTIAL: cargo/rustc decide what builds; the gate scan is syntactic (explicit paths). Behavioural equality of reduced builds rests on gates_item_level (same source) rather than on running reduced binaries.",
+        technique="Lean 4 proof (decide over all feature subsets of the scanned gate table) + cargo check correspondence",
+        design="§6 C19"),
 }
 
 def main():
